@@ -375,17 +375,10 @@ theorem foldl_BldOK {α : Type} (f : Bld → α → Bld) (hf : ∀ b a, BldOK b 
   | nil => exact h
   | cons a l ih => exact ih _ (hf b a h)
 
-theorem BldOK.applyService {b : Bld} (h : BldOK b) (s : Syncer) (st : KState) (hint : AMap SvcKey Nat)
-    (sname : String) (svc : Svc) : BldOK (applyService s st hint b sname svc) := by
-  unfold C42.applyService
+theorem BldOK.applyRest {b : Bld} (h1 : BldOK b) (s : Syncer) (hint : AMap SvcKey Nat)
+    (sname : String) (svc : Svc) (eps : List Ep) : BldOK (applyRest s hint b sname svc eps) := by
+  unfold C42.applyRest
   simp only []
-  generalize (if (filterTopo ((st.eps.get sname).getD []) svc.topoMode st.zone).2 = true then
-      (filterTopo ((st.eps.get sname).getD []) svc.topoMode st.zone).1
-    else filterTD ((st.eps.get sname).getD []) st.host st.zone) = eps0
-  generalize (if (isApiServer sname && (List.filter (fun x => x.ready) eps0).isEmpty) = true then
-      if (!(apiFallback s.prevEps sname).isEmpty) = true then apiFallback s.prevEps sname else eps0
-    else eps0) = eps
-  have h1 := BldOK.applySvc h s.prevSvc hint ⟨sname, .prim⟩ svc eps
   have h2 := foldl_BldOK (fun b ip => C42.applyDerived b sname .lb { svc with clusterIP := ip })
     (fun b a hb => BldOK.applyDerived hb _ _ _) svc.lbVIPs _ h1
   have h3 := foldl_BldOK (fun b ip => C42.applyDerived b sname .ext { svc with clusterIP := ip })
@@ -398,6 +391,11 @@ theorem BldOK.applyService {b : Bld} (h : BldOK b) (s : Syncer) (st : KState) (h
     · exact foldl_BldOK _ (fun b g hb => BldOK.applySvc hb _ _ _ _ _) _ _ h4
     · exact h4
   · exact h3
+
+theorem BldOK.applyService {b : Bld} (h : BldOK b) (s : Syncer) (st : KState) (hint : AMap SvcKey Nat)
+    (sname : String) (svc : Svc) : BldOK (applyService s st hint b sname svc) := by
+  unfold C42.applyService
+  exact BldOK.applyRest (BldOK.applySvc h _ _ _ _ _) _ _ _ _ _
 
 theorem buildDesired_ok (s : Syncer) (st : KState) (hint : AMap SvcKey Nat) : BldOK (buildDesired s st hint) := by
   simp only [buildDesired]
@@ -724,5 +722,178 @@ theorem writeBackends_get (B : AMap BKey BVal) (id start : Nat) (l : List Ep) (i
       have := ih (B.set ⟨id, start⟩ ⟨e.ip, e.port⟩) (start + 1) j (by simpa using hi)
       have e2 : start + (j + 1) = start + 1 + j := by omega
       rw [e2, this]; simp
+
+/-! ## Ghost traces: what the builder's `Set` calls leave in the desired maps -/
+
+/-- a predicate on builder states that every elementary builder operation preserves. -/
+structure Pres (P : Bld → Prop) : Prop where
+  writeSvc : ∀ b svc id c l f, P b → P (writeSvc b svc id c l f)
+  writeLBSrc : ∀ b svc id c l f, P b → P (writeLBSrc b svc id c l f)
+  backends : ∀ (b : Bld) skey id eps, P b →
+    P { b with des := { b.des with B := writeBackends b.des.B id 0 (readyOrdered eps) }, calls := (skey, id, eps) :: b.calls }
+  book : ∀ (b : Bld) newSvc newEps nextId fresh, P b → P { b with newSvc, newEps, nextId, fresh }
+
+variable {P : Bld → Prop}
+
+theorem Pres.updateService (hp : Pres P) {b : Bld} (h : P b) (skey : SvcKey) (svc : Svc) (id : Nat) (eps : List Ep) :
+    P (updateService b skey svc id eps).1 := by
+  unfold C42.updateService
+  have h1 := hp.backends b skey id eps h
+  have h2 := hp.writeSvc _ svc id (readyOrdered eps).length (localReady eps) (if svc.intLocal then flgInternalLocal else 0) h1
+  cases skey.extra
+  all_goals first
+    | exact h2
+    | exact hp.book _ _ _ _ _ h2
+
+theorem Pres.applySvcWith (hp : Pres P) {b : Bld} (h : P b) (skey : SvcKey) (svc : Svc) (id : Nat) (eps : List Ep) :
+    P (applySvcWith b skey svc id eps) := by
+  unfold C42.applySvcWith
+  exact hp.book _ _ _ _ _ (hp.updateService h skey svc id eps)
+
+theorem Pres.applySvc (hp : Pres P) {b : Bld} (h : P b) (prevSvc : AMap SvcKey SvcInfo) (hint : AMap SvcKey Nat)
+    (skey : SvcKey) (svc : Svc) (eps : List Ep) : P (applySvc prevSvc hint b skey svc eps) := by
+  unfold C42.applySvc
+  split
+  · exact hp.applySvcWith h _ _ _ _
+  · exact hp.applySvcWith (hp.book b b.newSvc b.newEps _ _ h) _ _ _ _
+
+theorem Pres.applyDerived (hp : Pres P) {b : Bld} (h : P b) (sname : String) (t : DType) (sinfo : Svc) :
+    P (applyDerived b sname t sinfo) := by
+  unfold C42.applyDerived
+  split
+  · exact h
+  · simp only []
+    split
+    · exact hp.book _ _ _ _ _ (hp.writeLBSrc _ _ _ _ _ _ h)
+    · exact hp.book _ _ _ _ _ (hp.writeSvc _ _ _ _ _ _ h)
+
+theorem foldl_pres {α : Type} (f : Bld → α → Bld) (hf : ∀ b a, P b → P (f b a)) (l : List α) (b : Bld)
+    (h : P b) : P (l.foldl f b) := by
+  induction l generalizing b with
+  | nil => exact h
+  | cons a l ih => exact ih _ (hf b a h)
+
+theorem Pres.applyRest (hp : Pres P) {b : Bld} (h1 : P b) (s : Syncer) (hint : AMap SvcKey Nat)
+    (sname : String) (svc : Svc) (eps : List Ep) : P (applyRest s hint b sname svc eps) := by
+  unfold C42.applyRest
+  simp only []
+  have h2 := foldl_pres (P := P) (fun b ip => C42.applyDerived b sname .lb { svc with clusterIP := ip })
+    (fun b a hb => hp.applyDerived hb _ _ _) svc.lbVIPs _ h1
+  have h3 := foldl_pres (P := P) (fun b ip => C42.applyDerived b sname .ext { svc with clusterIP := ip })
+    (fun b a hb => hp.applyDerived hb _ _ _) svc.extIPs _ h2
+  split
+  · have h4 := foldl_pres (P := P) (fun b ip => if (svc.intLocal && ip == podNPIP) = true then b
+        else C42.applyDerived b sname .np { svc with clusterIP := ip, port := svc.nodePort })
+      (fun b a hb => by split; exact hb; exact hp.applyDerived hb _ _ _) s.npIPs _ h3
+    split
+    · exact foldl_pres (P := P) _ (fun b g hb => hp.applySvc hb _ _ _ _ _) _ _ h4
+    · exact h4
+  · exact h3
+
+theorem Pres.applyService (hp : Pres P) {b : Bld} (h : P b) (s : Syncer) (st : KState) (hint : AMap SvcKey Nat)
+    (sname : String) (svc : Svc) : P (applyService s st hint b sname svc) := by
+  unfold C42.applyService
+  exact hp.applyRest (hp.applySvc h _ _ _ _ _) _ _ _ _ _
+
+/-- frontend trace: if no key is `Set` twice, every `Set` is what the desired map holds. -/
+def FOK (b : Bld) : Prop :=
+  (b.fwrites.map (·.1)).Nodup → ∀ kv ∈ b.fwrites, b.des.F.get kv.1 = some kv.2
+
+/-- backend trace: if no ID is used by two `updateService` calls, every call's block is exactly its
+ready endpoints, local ones first. -/
+def BOK (b : Bld) : Prop :=
+  (b.calls.map (·.2.1)).Nodup → ∀ c ∈ b.calls, ∀ i (hi : i < (readyOrdered c.2.2).length),
+    b.des.B.get ⟨c.2.1, i⟩ = some ⟨(readyOrdered c.2.2)[i].ip, (readyOrdered c.2.2)[i].port⟩
+
+theorem FOK_put {F : AMap FKey FVal} {fw : List (FKey × FVal)} (k : FKey) (v : FVal)
+    (h : (fw.map (·.1)).Nodup → ∀ kv ∈ fw, F.get kv.1 = some kv.2) :
+    (((k, v) :: fw).map (·.1)).Nodup → ∀ kv ∈ (k, v) :: fw, (F.set k v).get kv.1 = some kv.2 := by
+  intro hnd kv hm
+  simp only [List.map_cons, List.nodup_cons] at hnd
+  rcases List.mem_cons.1 hm with rfl | hm
+  · exact AMap.get_set_self _ _ _
+  · have : kv.1 ≠ k := fun e => hnd.1 (e ▸ List.mem_map_of_mem hm)
+    rw [AMap.get_set_ne _ _ this]
+    exact h hnd.2 kv hm
+
+theorem FOK_puts {F : AMap FKey FVal} {fw : List (FKey × FVal)} (ks : List FKey) (v : FVal)
+    (h : (fw.map (·.1)).Nodup → ∀ kv ∈ fw, F.get kv.1 = some kv.2) :
+    (((ks.map (fun k => (k, v))).reverse ++ fw).map (·.1)).Nodup →
+      ∀ kv ∈ (ks.map (fun k => (k, v))).reverse ++ fw, (ks.foldl (fun F k => F.set k v) F).get kv.1 = some kv.2 := by
+  induction ks generalizing F fw with
+  | nil => simpa using h
+  | cons k ks ih =>
+    simp only [List.map_cons, List.reverse_cons, List.append_assoc, List.singleton_append, List.foldl_cons]
+    exact ih (FOK_put k v h)
+
+theorem FOK_pres : Pres FOK := by
+  constructor
+  · intro b svc id c l f h
+    unfold FOK C42.writeSvc
+    exact FOK_put _ _ h
+  · intro b svc id c l f h
+    unfold FOK C42.writeLBSrc
+    simp only []
+    split
+    · exact FOK_puts _ _ h
+    · exact FOK_put _ _ (FOK_puts _ _ h)
+  · intro b skey id eps h; exact h
+  · intro b _ _ _ _ h; exact h
+
+theorem BOK_pres : Pres BOK := by
+  constructor
+  · intro b svc id c l f h
+    unfold BOK at *
+    have e1 : (C42.writeSvc b svc id c l f).calls = b.calls := by unfold C42.writeSvc; rfl
+    rw [e1, writeSvc_B]; exact h
+  · intro b svc id c l f h
+    unfold BOK at *
+    have e1 : (C42.writeLBSrc b svc id c l f).calls = b.calls := by
+      unfold C42.writeLBSrc; simp only []; split <;> rfl
+    rw [e1, writeLBSrc_B]; exact h
+  · intro b skey id eps h
+    unfold BOK at *
+    intro hnd c hm i hi
+    simp only [List.map_cons, List.nodup_cons] at hnd
+    rcases List.mem_cons.1 hm with rfl | hm
+    · have := writeBackends_get b.des.B id 0 (readyOrdered eps) i hi
+      simpa using this
+    · have hne : c.2.1 ≠ id := fun e => hnd.1 (e ▸ List.mem_map_of_mem (f := fun x : SvcKey × Nat × List Ep => x.2.1) hm)
+      show (writeBackends b.des.B id 0 (readyOrdered eps)).get ⟨c.2.1, i⟩ = _
+      rw [writeBackends_get_lt _ _ _ _ _ (Or.inl hne)]
+      exact h hnd.2 c hm i hi
+  · intro b _ _ _ _ h; exact h
+
+/-- membership in the traces is never lost. -/
+theorem mem_pres (c : SvcKey × Nat × List Ep) (w : FKey × FVal) :
+    Pres (fun b => c ∈ b.calls ∧ w ∈ b.fwrites) := by
+  constructor
+  · intro b svc id cc l f h
+    exact ⟨h.1, List.mem_cons_of_mem _ h.2⟩
+  · intro b svc id cc l f h
+    unfold C42.writeLBSrc
+    simp only []
+    split
+    · exact ⟨h.1, List.mem_append_right _ h.2⟩
+    · exact ⟨h.1, List.mem_cons_of_mem _ (List.mem_append_right _ h.2)⟩
+  · intro b skey id eps h; exact ⟨List.mem_cons_of_mem _ h.1, h.2⟩
+  · intro b _ _ _ _ h; exact h
+
+/-- what the primary `applySvc` of a service records. -/
+theorem applySvc_records (prevSvc : AMap SvcKey SvcInfo) (hint : AMap SvcKey Nat) (b : Bld) (skey : SvcKey) (svc : Svc)
+    (eps : List Ep) :
+    ∃ id v, (skey, id, eps) ∈ (applySvc prevSvc hint b skey svc eps).calls ∧
+      (zeroKey svc, v) ∈ (applySvc prevSvc hint b skey svc eps).fwrites ∧
+      v.id = id ∧ v.count = (readyOrdered eps).length ∧ v.lcl = localReady eps ∧ v.aff = affOf svc := by
+  have key : ∀ (b : Bld) id, ∃ v, (skey, id, eps) ∈ (applySvcWith b skey svc id eps).calls ∧
+      (zeroKey svc, v) ∈ (applySvcWith b skey svc id eps).fwrites ∧
+      v.id = id ∧ v.count = (readyOrdered eps).length ∧ v.lcl = localReady eps ∧ v.aff = affOf svc := by
+    intro b id
+    unfold C42.applySvcWith C42.updateService C42.writeSvc
+    cases skey.extra <;> exact ⟨_, List.mem_cons_self .., List.mem_cons_self .., rfl, rfl, rfl, rfl⟩
+  unfold C42.applySvc
+  split
+  · rename_i id _; obtain ⟨v, h⟩ := key b id; exact ⟨id, v, h⟩
+  · obtain ⟨v, h⟩ := key _ ((hint.get skey).getD b.nextId); exact ⟨_, v, h⟩
 
 end CalicoVerif.C42
